@@ -348,7 +348,11 @@ def c10_12(ck, prog, rid='C10.12'):
             for new in (G - 1, G, G + 1):
                 st = {'flipped': False}
 
-                def val(e, old=old, new=new, st=st):
+                dparam = fn.params[1]['id'] if len(fn.params) > 1 else None
+
+                def val(e, old=old, new=new, st=st, dparam=dparam):
+                    if is_ref(e) and e.get('id') == dparam and dparam is not None:
+                        return new - old                 # the adjustment itself
                     if is_member(e, vfield, 'DBusCounter'):
                         return new if st['flipped'] else old
                     if is_member(e, gfield, 'DBusCounter'):
